@@ -62,8 +62,13 @@ def check_case(mon, order, Wi, X, cls, exact=True, do_naive=True):
     if len({tuple(r) for r in X.tolist()}) < n:
         mon.count("dup_cases")
     case = {"W": np.asarray(Wi), "X": X}
+    arg = gen.exotic(X, _LAYOUT_RNG) if _LAYOUT_RNG.random() < 0.2 else X.copy()
+    if _LAYOUT_RNG.random() < 0.25 and np.abs(X).max() < 1e6 and (X == np.round(X)).all():
+        # integer-valued data handed over with an integer or single-precision dtype (exactly representable either way)
+        arg = X.astype([np.int64, np.int32, np.float32][int(_LAYOUT_RNG.integers(3))])
+        mon.count("non_float64_inputs")
     try:
-        res = order.get_pareto_set(gen.exotic(X, _LAYOUT_RNG) if _LAYOUT_RNG.random() < 0.2 else X.copy())
+        res = order.get_pareto_set(arg)
     except Exception as e:
         mon.violation(f"pareto:crash:{type(e).__name__}", f"get_pareto_set raised {e!r}", case)
         return
